@@ -1,7 +1,167 @@
-(* Property C20: path utilities keep their contracts.  Statements only; proofs are in coq/proofs/PathUtils*.v *)
-From Coq Require Import ZArith List Floats.
-From Clip Require Import base.Geom base.FloatModel model.PathUtils proofs.PathUtilsFloat.
+(* Property C20: path utilities keep their contracts.
+   Statements only; the proofs are in coq/proofs/PathUtils*.v, the models in coq/model/PathUtils.v.
+   _partial : proves part of the property's clause (the comment says what is missing);
+   _refuted : the clause is false of the faithful model (witness replayed on the real code by checks/C20.py). *)
+From Coq Require Import ZArith List Bool Floats Reals.
+From Clip Require Import base.Geom base.FloatModel model.PathUtils.
+From Clip Require Import proofs.PathUtilsBase proofs.PathUtilsFloat proofs.PathUtilsTrim proofs.PathUtilsFlags
+  proofs.PathUtilsSimplify proofs.PathUtilsRdp proofs.PathUtilsMisc proofs.PathUtilsEllipse proofs.PathUtilsInst.
+Import ListNotations.
 
+(* ---------------------------------------------------------------- TrimCollinear *)
+(* never out of bounds / out of fuel, and the result is a subsequence of the input (open and closed) *)
+Theorem C20_trim_subseq : forall p is_open, exists r, trim_collinear p is_open = Ok r /\ sublist r p.
+Proof. exact trim_total_subseq. Qed.
+Print Assumptions C20_trim_subseq.
+
+(* open paths keep both end points; missing: the open path of two equal points (refuted below) *)
+Theorem C20_trim_open_keeps_ends_partial : forall p,
+  (2 <= length p)%nat -> (forall a, p <> [a; a]) ->
+  exists r, trim_collinear p true = Ok r /\ keeps_ends r p = true.
+Proof. exact trim_open_keeps_ends. Qed.
+Print Assumptions C20_trim_open_keeps_ends_partial.
+
+Theorem C20_trim_open_keeps_ends_refuted :
+  exists p, length p = 2%nat /\ trim_collinear p true = Ok [] /\ keeps_ends [] p = false.
+Proof. exact trim_open_keeps_ends_refuted. Qed.
+Print Assumptions C20_trim_open_keeps_ends_refuted.
+
+(* the signed area of a closed path is preserved exactly, for every input *)
+Theorem C20_trim_area : forall p, exists r, trim_collinear p false = Ok r /\ area2 r = area2 p.
+Proof. exact trim_area. Qed.
+Print Assumptions C20_trim_area.
+
+(* ---------------------------------------------------------------- SimplifyPath *)
+Theorem C20_simplify_subseq : forall p eps closed r, simplify_path p eps closed = Ok r -> sublist r p.
+Proof. exact simplify_path_subseq. Qed.
+Print Assumptions C20_simplify_subseq.
+
+(* no out-of-bounds access to flags[]/distSqr[]/path[], GetNext/GetPrior always find an unflagged index, at most
+   len iterations: for every path, every epsilon (NaN included) and open/closed *)
+Theorem C20_simplify_safe : forall p eps closed, exists r, simplify_path p eps closed = Ok r.
+Proof. exact simplify_path_safe. Qed.
+Print Assumptions C20_simplify_safe.
+
+(* the same for any distance type, distance function and comparison (no floating point involved) *)
+Theorem C20_simplify_safe_generic : forall D d2 ltD dmax dzero p (e : D) closed,
+  exists r, simplify_gen D d2 ltD dmax dzero p e closed = Ok r.
+Proof. exact simplify_safe. Qed.
+Print Assumptions C20_simplify_safe_generic.
+
+(* open paths keep both end points; missing: epsilon^2 >= MAX_DBL (epsilon >= 1.34e154), which needs
+   PerpendicDistFromLineSqrd < MAX_DBL *)
+Theorem C20_simplify_open_keeps_ends_partial : forall p eps,
+  (2 <= length p)%nat -> (fsqr eps <? MAX_DBL)%float = true ->
+  exists r, simplify_path p eps false = Ok r /\ keeps_ends r p = true.
+Proof. exact simplify_path_open_keeps_ends. Qed.
+Print Assumptions C20_simplify_open_keeps_ends_partial.
+
+(* ---------------------------------------------------------------- RamerDouglasPeucker *)
+Theorem C20_rdp_subseq : forall p eps r, rdp_path p eps = Ok r -> sublist r p.
+Proof. exact rdp_path_subseq. Qed.
+Print Assumptions C20_rdp_subseq.
+
+(* no out-of-bounds access, recursion depth <= len, for epsilon^2 >= 0 (i.e. epsilon not NaN) *)
+Theorem C20_rdp_safe : forall p eps, (0 <=? fsqr eps)%float = true -> exists r, rdp_path p eps = Ok r.
+Proof. exact rdp_path_safe. Qed.
+Print Assumptions C20_rdp_safe.
+
+Theorem C20_rdp_keeps_first : forall p eps, (0 <=? fsqr eps)%float = true -> (1 <= length p)%nat ->
+  exists r, rdp_path p eps = Ok r /\ hd_pt r = hd_pt p.
+Proof. exact rdp_path_keeps_first. Qed.
+Print Assumptions C20_rdp_keeps_first.
+
+(* both end points are kept when no earlier vertex coincides with the last one; missing: paths whose last vertex
+   occurs earlier -- refuted for first == last below *)
+Theorem C20_rdp_keeps_ends_partial : forall p eps, (0 <=? fsqr eps)%float = true -> (2 <= length p)%nat ->
+  (forall i a, (i < length p - 1)%nat -> nth_error p i = Some a -> nth_error p (length p - 1) <> Some a) ->
+  exists r, rdp_path p eps = Ok r /\ keeps_ends r p = true.
+Proof. exact rdp_path_keeps_ends_partial. Qed.
+Print Assumptions C20_rdp_keeps_ends_partial.
+
+Theorem C20_rdp_keeps_ends_refuted :
+  exists p eps, (2 <= length p)%nat /\ (0 <=? eps)%float = true /\
+    exists r, rdp_path p eps = Ok r /\ keeps_ends r p = false.
+Proof. exact rdp_keeps_ends_refuted. Qed.
+Print Assumptions C20_rdp_keeps_ends_refuted.
+
+(* "every removed vertex is within epsilon of the line through its two surviving neighbours" is false of the code:
+   (0,0)(10,10)(20,0)(30,10)(40,0)(0,0), epsilon 1 removes (40,0) and (0,0) *)
+Theorem C20_rdp_bound_refuted :
+  exists p eps, (0 <=? eps)%float = true /\
+    exists fl, rdp_path_flags p eps = Ok fl /\ rdp_bad_f p fl eps <> [].
+Proof. exact rdp_bound_refuted. Qed.
+Print Assumptions C20_rdp_bound_refuted.
+
+(* ---------------------------------------------------------------- defining equations *)
+(* StripDuplicates: std::unique (identity on duplicate-free lists, collapses a repeated neighbour) + closing pops *)
+Theorem C20_strip_dups_unique : forall p,
+  no_adj eq (std_unique p) /\ sublist (std_unique p) p /\ (no_adj eq p -> std_unique p = p) /\
+  (forall l1 a l2, std_unique (l1 ++ a :: a :: l2) = std_unique (l1 ++ a :: l2)).
+Proof.
+  exact (fun p => conj (std_unique_no_adj p) (conj (std_unique_sublist p)
+           (conj (std_unique_id p) (fun l1 a l2 => std_unique_collapse l1 a l2)))).
+Qed.
+Print Assumptions C20_strip_dups_unique.
+
+Theorem C20_strip_dups : forall p closed,
+  exists r, strip_duplicates p closed = Ok r /\
+    sublist r p /\ no_adj eq r /\ (forall x, In x p <-> In x r) /\ hd_pt r = hd_pt p /\
+    (closed = false -> r = std_unique p) /\
+    (closed = true -> (1 < length r)%nat -> last r (0, 0)%Z <> hd (0, 0)%Z r).
+Proof. exact strip_duplicates_spec. Qed.
+Print Assumptions C20_strip_dups.
+
+(* StripNearEqual: consecutive kept points are not NearEqual, dropped points are near a kept/earlier point,
+   closed: the last kept point is not near the first *)
+Theorem C20_strip_near : forall maxd p closed,
+  exists r, strip_near_equal p maxd closed = Ok r /\
+    sublist r p /\ no_adj (fun x y => near maxd y x) r /\ hd_pt r = hd_pt p /\
+    (closed = false -> forall x, In x p -> In x r \/ exists k, In k p /\ near maxd x k) /\
+    (closed = true -> (1 < length r)%nat -> ~ near maxd (last r (0, 0)%Z) (hd (0, 0)%Z r)).
+Proof. exact strip_near_equal_spec. Qed.
+Print Assumptions C20_strip_near.
+
+Theorem C20_translate : forall p dx dy,
+  length (translate_path p dx dy) = length p /\
+  forall i, nth_error (translate_path p dx dy) i = option_map (fun q => (px q + dx, py q + dy)%Z) (nth_error p i).
+Proof. exact translate_path_spec. Qed.
+Print Assumptions C20_translate.
+
+(* GetBounds = fold of min/max (Geom.bbox_of) once the first point is an int64 point; contains every point *)
+Theorem C20_bounds : forall a t,
+  in_i64 (px a) = true -> in_i64 (py a) = true -> bbox_of (a :: t) = Some (get_bounds (a :: t)).
+Proof. exact get_bounds_bbox. Qed.
+Print Assumptions C20_bounds.
+
+Theorem C20_bounds_contains : forall p l t r b,
+  get_bounds p = (l, t, r, b) -> forall q, In q p -> (l <= px q <= r /\ t <= py q <= b)%Z.
+Proof. exact get_bounds_contains. Qed.
+Print Assumptions C20_bounds_contains.
+
+(* Length = sum of sqrt(dx^2+dy^2) over the edges, accumulated left to right in binary64 *)
+Theorem C20_length : forall p closed, (2 <= length p)%nat ->
+  path_length p closed = Ok (fold_left edge_len (if closed then cyc_edges p else open_edges p) 0%float).
+Proof. exact path_length_spec. Qed.
+Print Assumptions C20_length.
+
+(* Ellipse: the recurrence the model runs on binary64, read over the reals with co = cos t, si = sin t *)
+Theorem C20_ellipse_recurrence : forall t n i, (i < n)%nat ->
+  nth i (ell_R n (cos t) (sin t) (cos t) (sin t)) (0, 0)%R = (cos (INR (S i) * t), sin (INR (S i) * t))%R.
+Proof. exact ellipse_recurrence. Qed.
+Print Assumptions C20_ellipse_recurrence.
+
+Theorem C20_ellipse_shape : forall cx cy rx ry steps si co ry' steps',
+  ellipse_params rx ry steps = Some (ry', steps') -> (1 <= steps')%Z ->
+  length (ellipse_d cx cy rx ry steps si co) = Z.to_nat steps' /\
+  hd_error (ellipse_d cx cy rx ry steps si co) = Some (cx + rx, cy)%float /\
+  forall i, (i < Z.to_nat steps' - 1)%nat ->
+    nth_error (ellipse_d cx cy rx ry steps si co) (S i) =
+    option_map (fun u => (cx + rx * fst u, cy + ry' * snd u)%float) (nth_error (ell_units (Z.to_nat (steps' - 1)) co si) i).
+Proof. exact ellipse_d_shape. Qed.
+Print Assumptions C20_ellipse_shape.
+
+(* the fast int64 -> double conversion used by the extracted model is FloatModel.Z2F *)
 Theorem C20_int_to_double_fast_path : forall z, Z2Ff z = Z2F z.
 Proof. exact Z2Ff_eq. Qed.
 Print Assumptions C20_int_to_double_fast_path.
